@@ -160,7 +160,18 @@ fn check_config(ctx: &Ctx, rt: &tokio::runtime::Runtime, sname: &str, tiles: &Ti
 			Some(false) => {}
 		}
 	}
+	let full_source = sname.starts_with("full");
 	let judge = |got: &BTreeMap<Key, Vec<u8>>, path: &str| {
+		// a non-empty closed geographic box meets at least one tile of every level: over a source that has
+		// every tile, each level inside the zoom limits keeps at least one (which neighbour of an edge is free)
+		if full_source {
+			let levels: std::collections::BTreeSet<u8> = may.keys().map(|k| k.0).collect();
+			for z in levels {
+				if !got.keys().any(|k| k.0 == z) {
+					ctx.violation(&format!("{path}: a valid geographic box selects no tile at all on a level inside the zoom limits"), &format!("{label}: level {z} is empty, candidates {:?}", may.keys().filter(|k| k.0 == z).take(4).collect::<Vec<_>>()), case.clone());
+				}
+			}
+		}
 		for (c, v) in &must {
 			match got.get(c) {
 				None => ctx.violation(&format!("{path}: a selected tile is missing"), &format!("{label}: no tile at {c:?} although the source has {:?} and it is selected", String::from_utf8_lossy(v)), case.clone()),
@@ -410,13 +421,26 @@ pub fn run(ctx: Arc<Ctx>) {
 			}
 		}
 	}
+	// degenerate and hair-thin boxes lying exactly on tile edges of levels 1..3 (always, not strided)
+	let n_strided = boxes.len();
+	{
+		let e2 = 66.51326044311186f64;
+		let (e3a, e3b) = (40.97989806962013f64, 79.17133464081945f64);
+		for (x, y) in [(0.0, 0.0), (45.0, 0.0), (-135.0, e2), (90.0, -e2), (0.0, e3a), (-45.0, -e3b), (180.0, 0.0), (-180.0, e2), (0.0, 85.0511287798066), (0.0, -85.0511287798066), (11.25, 0.0)] {
+			boxes.push(Some([x, y, x, y]));
+			boxes.push(Some([(x - 1e-9f64).max(-180.0), (y - 1e-9f64).max(-90.0), (x + 1e-9f64).min(180.0), (y + 1e-9f64).min(90.0)]));
+		}
+		for g in [[-10.0, 0.0, 10.0, 0.0], [0.0, -10.0, 0.0, 10.0], [-180.0, e2, 180.0, e2], [90.0, -85.0, 90.0, 85.0], [-170.0, -1e-12, 170.0, 1e-12], [45.0 - 1e-12, -80.0, 45.0 + 1e-12, 80.0]] {
+			boxes.push(Some(g));
+		}
+	}
 	let mut cfgs: Vec<(usize, Opts)> = vec![];
 	for si in 0..sets.len() {
 		for flags in 0..4u8 {
 			for (zi, z) in zooms.iter().enumerate() {
 				for (bxi, b) in boxes.iter().enumerate() {
 					// zoom x box: all zoom variants on every 4th box, the unrestricted zoom on all
-					if zi > 0 && bxi % 4 != 0 {
+					if zi > 0 && bxi % 4 != 0 && bxi < n_strided {
 						continue;
 					}
 					let borders: Vec<Option<u32>> = if b.is_some() { vec![None, Some(0), Some(1), Some(3)] } else { vec![None] };
